@@ -74,7 +74,9 @@ def main(argv):
     vacuous = []
     unreached = []
     unit_status = {}
+    executed = set()
     for r in results:
+        executed.update(r.get("inlined", []))
         unit_status[r["unit"]] = {"status": r["status"], "reason": r["reason"][:500], "paths": r["paths"],
                                   "gen_s": r["gen_s"], "solver_s": r["solver_s"]}
         solver_s += r["solver_s"]
@@ -236,6 +238,7 @@ def main(argv):
         "backends": backends,
         "solver_s": round(solver_s, 3),
         "functions_under_contract": list(functions.values()),
+        "functions_executed": sorted(executed),  # every /repo function whose real body was entered symbolically by some unit of this run
         "units": unit_status,
         "path_covers_not_reached": unreached,
         "assume_sites": assume_sites(pid),
